@@ -353,6 +353,14 @@ class CodeBuilder:
         if cls is not None and not is_dataclass_dict_mixin(cls):
             return cls.__dict__[method_name]
 
+    def _get_dialect_cache_key(self) -> str:
+        # methods compiled for a dialect are cached per class; a generic
+        # specialisation needs its own entry
+        if self.initial_type_args:
+            type_args_hash = hash_type_args(self.initial_type_args)
+            return f"(dialect, '{type_args_hash}')"
+        return "dialect"
+
     def _get_lazy_type_args(self) -> str:
         # a lazily compiled method of a generic specialisation must be
         # rebuilt for the same type arguments, not for the bare class
@@ -566,20 +574,23 @@ class CodeBuilder:
             filter(None, ("cls", "d", self.get_unpack_method_flags()))
         )
         cache_name = f"__dialect_{self.format_name}_unpacker_cache__"
-        self.add_line(f"unpacker = cls.{cache_name}.get(dialect)")
+        cache_key = self._get_dialect_cache_key()
+        self.add_line(f"unpacker = cls.{cache_name}.get({cache_key})")
         with self.indent("if unpacker is not None:"):
             self.add_line(f"return unpacker({unpacker_args})")
         if self.default_dialect:
             self.add_type_modules(self.default_dialect)
         self.add_line(
             "CodeBuilder("
-            "cls,dialect=dialect,"
+            "cls,"
+            f"{self._get_lazy_type_args()}"
+            "dialect=dialect,"
             f"first_method='{method_name}',"
             f"format_name='{self.format_name}',"
             f"default_dialect={type_name(self.default_dialect)}"
             ").add_unpack_method()"
         )
-        self.add_line(f"return cls.{cache_name}[dialect]({unpacker_args})")
+        self.add_line(f"return cls.{cache_name}[{cache_key}]({unpacker_args})")
 
     def add_unpack_method(self) -> None:
         self.reset()
@@ -1094,7 +1105,10 @@ class CodeBuilder:
             filter(None, ("self", self.get_pack_method_flags()))
         )
         cache_name = f"__dialect_{self.format_name}_packer_cache__"
-        self.add_line(f"packer = self.__class__.{cache_name}.get(dialect)")
+        cache_key = self._get_dialect_cache_key()
+        self.add_line(
+            f"packer = self.__class__.{cache_name}.get({cache_key})"
+        )
         self.add_line("if packer is not None:")
         if self.encoder is not None:
             return_statement = "return encoder({})"
@@ -1106,7 +1120,9 @@ class CodeBuilder:
             self.add_type_modules(self.default_dialect)
         self.add_line(
             "CodeBuilder("
-            "self.__class__,dialect=dialect,"
+            "self.__class__,"
+            f"{self._get_lazy_type_args()}"
+            "dialect=dialect,"
             f"first_method='{method_name}',"
             f"format_name='{self.format_name}',"
             f"default_dialect={type_name(self.default_dialect)}"
@@ -1114,7 +1130,7 @@ class CodeBuilder:
         )
         self.add_line(
             return_statement.format(
-                f"self.__class__.{cache_name}[dialect]({packer_args})"
+                f"self.__class__.{cache_name}[{cache_key}]({packer_args})"
             )
         )
 
@@ -1183,7 +1199,8 @@ class CodeBuilder:
                         f"setattr(cls, '{method_name.public}', {method_name})"
                     )
         else:
-            self.add_line(f"cls.{cache_name}[dialect] = {method_name}")
+            cache_key = self._get_dialect_cache_key()
+            self.add_line(f"cls.{cache_name}[{cache_key}] = {method_name}")
 
     def _get_field_packer(
         self,
